@@ -152,6 +152,18 @@ func sharingConfigs(env *engine.Env) []fixture.Doc {
 			"activate": []any{"trig-c", "trig-shared2", "trig-d"}, "activate_noawait": []any{"trig-shared2", "trig-c"},
 			"interest_await": []any{"trig-shared", "trig-e"}, "activate_await": []any{"trig-d", "trig-f"}}}
 	}))
+	// override blocks that state lists without items (`depends: []`) next to base lists with items, a block without
+	// any setting (`rpm:` followed by nothing), a block with settings
+	docs = append(docs, mk(plain, func(d fixture.Doc) {
+		d["depends"] = []any{"libc6", "bash"}
+		d["provides"] = []any{"virt"}
+		d["conflicts"] = []any{"enemy (<< 2)", "other"}
+		d["recommends"] = []any{"nice"}
+		d["overrides"] = map[string]any{"rpm": map[string]any{"depends": []any{}, "provides": []any{}}, "deb": map[string]any{"recommends": []any{}, "conflicts": []any{}, "depends": []any{"only-deb"}}, "apk": nil, "ipk": map[string]any{}}
+	}))
+	// a changelog together with a content entry at the path of the changelog deb generates: deb refuses it, the
+	// other formats ship the entry
+	docs = append(docs, mk(append([]model.Entry{{Src: "doc/README", Dst: "/usr/share/doc/pkg/changelog.Debian.gz"}}, plain...), func(d fixture.Doc) { d["changelog"] = t.P("changelog.yaml") }))
 	// everything together
 	all := mk(append(append([]model.Entry{}, partial...), tagged[1:]...), func(d fixture.Doc) {
 		d["overrides"] = map[string]any{"deb": map[string]any{"umask": 0o077, "depends": []any{"only-deb"}}, "rpm": map[string]any{"rpm": map[string]any{"signature": map[string]any{"key_id": "cccc3333"}}}}
@@ -249,6 +261,17 @@ func init() {
 			for _, mode := range []string{"S1", "S2"} {
 				for _, pr := range [][]string{{"apk", "apk"}, {"deb", "deb"}, {"rpm", "rpm"}, {"archlinux", "archlinux"}, {"ipk", "ipk"}, {"deb", "apk"}} {
 					if !yield(C12Case{Config: c12Large(env), Mode: mode, Formats: pr}) {
+						return
+					}
+				}
+			}
+			// S1v: as S1, each thread validating the shared configuration before it packages
+			for ci := 0; ci < n; ci++ {
+				if !env.Thorough() && ci != 1 && ci != 2 && ci != n-3 && ci != n-2 && ci != n-1 {
+					continue
+				}
+				for _, pr := range [][]string{{"deb", "rpm"}, {"rpm", "apk"}, {"archlinux", "ipk"}, {"deb", "deb"}} {
+					if !yield(C12Case{Config: ci, Mode: "S1v", Formats: pr}) {
 						return
 					}
 				}
